@@ -32,6 +32,7 @@ mod c12;
 mod c12live;
 mod c13;
 mod c14live;
+mod c14qt;
 mod gen_wizard;
 mod c15;
 mod c16;
@@ -118,6 +119,7 @@ fn main() {
         "c09live" => c09live::run(&mut ctx),
         "c07h3" => muxh3::run_udp(&mut ctx),
         "c11h3" => muxh3::run_icmp(&mut ctx),
+        "c14qt" => c14qt::run(&mut ctx),
         "c14est" => c10::run_establish(&mut ctx),
         "c14live" => c14live::run(&mut ctx),
         "c11" => c11::run(&mut ctx),
